@@ -127,15 +127,52 @@ Definition wf_state (s : pst) : Prop :=
 Ltac unf_all := unfold withdraw_rewards, pay, set_bal, set_dlg, set_rwd, set_alw, set_unb, set_rrd, set_pool, set_bcalls,
                        up1, up2, up3 in *; cbn in *.
 
+(* projections through withdraw_rewards, without unfolding it *)
+Lemma wrp_bal s d v x : bal (withdraw_rewards s d v) x = if Z.eqb x (wdr s d) then bal s x + rwd s d v else bal s x.
+Proof. unfold withdraw_rewards, pay, set_rwd, set_bal, up1. cbn. destruct (Z.eqb x (wdr s d)) eqn:E; [apply Z.eqb_eq in E; subst|]; reflexivity. Qed.
+Lemma wrp_rwd s d v a v' : rwd (withdraw_rewards s d v) a v' = if Z.eqb a d && Z.eqb v' v then 0 else rwd s a v'.
+Proof. reflexivity. Qed.
+Lemma wrp_dlg s d v : dlg (withdraw_rewards s d v) = dlg s. Proof. reflexivity. Qed.
+Lemma wrp_wdr s d v : wdr (withdraw_rewards s d v) = wdr s. Proof. reflexivity. Qed.
+Lemma wrp_alw s d v : alw (withdraw_rewards s d v) = alw s. Proof. reflexivity. Qed.
+Lemma wrp_unb s d v : unb (withdraw_rewards s d v) = unb s. Proof. reflexivity. Qed.
+Lemma wrp_rrd s d v : rrd (withdraw_rewards s d v) = rrd s. Proof. reflexivity. Qed.
+Lemma wrp_pool s d v : pool (withdraw_rewards s d v) = pool s. Proof. reflexivity. Qed.
+Lemma wrp_bcalls s d v : bcalls (withdraw_rewards s d v) = bcalls s. Proof. reflexivity. Qed.
+Lemma wrp_next_tx s d v : next_tx (withdraw_rewards s d v) = next_tx s. Proof. reflexivity. Qed.
+Lemma wrp_next_bc s d v : next_bc (withdraw_rewards s d v) = next_bc s. Proof. reflexivity. Qed.
+
+Ltac proj :=
+  repeat progress
+    (cbn [bal dlg rwd wdr alw unb rrd isval pool next_tx bcalls next_bc xready switch
+          set_bal set_dlg set_rwd set_alw set_unb set_rrd set_pool set_bcalls pay];
+     rewrite ?wrp_bal, ?wrp_rwd, ?wrp_dlg, ?wrp_wdr, ?wrp_alw, ?wrp_unb, ?wrp_rrd, ?wrp_pool, ?wrp_bcalls,
+             ?wrp_next_tx, ?wrp_next_bc;
+     unfold up1, up2, up3).
+
+Ltac nonneg N :=
+  repeat match goal with
+         | |- context [rwd ?s ?x ?v] =>
+             lazymatch goal with
+             | _ : 0 <= rwd s x v |- _ => fail
+             | _ => pose proof (N x v)
+             end
+         end.
+
 (* third-party clauses when only entries keyed by the caller (and balances upward) change *)
 Ltac tp_simple N :=
-  let a := fresh "a" in let Ha := fresh "Ha" in
-  intros a Ha; repeat split;
-  [ unf_all; eqbs; try (pose proof (N a 0)); fin; try (match goal with |- context [rwd ?s ?x ?v] => pose proof (N x v) end; lia)
-  | intros ?; unf_all; eqbs; fin
-  | intros ?; left; unf_all; eqbs; fin
-  | intros ?; left; unf_all; eqbs; fin
-  | intros ? ?; left; unf_all; eqbs; fin
+  let a := fresh "a" in let Ha := fresh "Ha" in let Hf := fresh "Hf" in
+  intros a Ha;
+  match goal with
+  | Ha' : a <> ?c |- _ =>
+      assert (Hf : Z.eqb a c = false) by (apply Z.eqb_neq; exact Ha')
+  end;
+  repeat split;
+  [ proj; rewrite ?Hf; cbn [andb]; proj; eqbs; nonneg N; fin
+  | intros ?; proj; rewrite ?Hf; cbn [andb]; eqbs; fin
+  | intros ?; left; proj; rewrite ?Hf; cbn [andb]; eqbs; fin
+  | intros ?; left; proj; rewrite ?Hf; cbn [andb]; eqbs; fin
+  | intros ? ?; left; proj; rewrite ?Hf; cbn [andb]; eqbs; fin
   | idtac | idtac ].
 
 Lemma method_run_tp caller value c s s' :
@@ -194,7 +231,7 @@ Proof.
     tp_simple N.
     + intros id amt fee0 Hp. unf_all.
       destruct (Z.eqb id txid) eqn:Q.
-      * zb. subst. rewrite P in Hp. inversion Hp; subst. exists (fee0 + fee). split; [reflexivity|lia].
+      * zb. subst. rewrite P in Hp. inversion Hp; subst. eexists. split; [reflexivity|lia].
       * exists fee0. split; [exact Hp|lia].
     + apply bcalls_kept_eq; reflexivity.
   - (* crossChain *)
@@ -213,3 +250,170 @@ Proof.
   - discriminate.
   - discriminate.
 Qed.
+
+(* ------------------------------------------------------------------ *)
+(* Contract.Run with the guard order found in the source *)
+
+Definition expected_guards : list guard := [GInputLen; GLookup; GReadonly; GDisabled; GDispatch].
+
+Lemma guards_expected c : guards_of c = expected_guards.
+Proof. destruct c; reflexivity. Qed.
+
+Definition mid_of (c : call) : string :=
+  match find_method methods c with Some m => pm_selector m | None => EmptyString end.
+
+Lemma contract_run_ok ro caller v c s s' :
+  contract_run methods expected_guards ro caller v c s = Ok s' ->
+  c <> CShortInput /\
+  (exists m, find_method methods c = Some m /\ (ro && negb (pm_readonly m)) = false) /\
+  is_disabled (switch s) (contract_addr (call_contract c)) (mid_of c) = false /\
+  method_run caller v c s = Ok s'.
+Proof.
+  unfold expected_guards, mid_of. cbn [contract_run run_guard].
+  destruct c; try (destruct (find_method methods _) as [m|] eqn:F; [|discriminate]);
+    try discriminate;
+    (destruct (negb (ro && negb (pm_readonly m))) eqn:G; [|discriminate]);
+    (destruct (negb (is_disabled _ _ _)) eqn:D; [|discriminate]);
+    intro H; (split; [discriminate|]); (split; [exists m; split; [reflexivity|apply negb_true_iff; exact G]|]);
+    (split; [apply negb_true_iff; exact D|exact H]).
+Qed.
+
+Lemma evm_readonly_values :
+  evm_readonly evm_sites CALL = Some false /\ evm_readonly evm_sites CALLCODE = Some true /\
+  evm_readonly evm_sites DELEGATECALL = Some true /\ evm_readonly evm_sites STATICCALL = Some true.
+Proof. repeat split; reflexivity. Qed.
+
+Definition eff_value (k : callkind) (value : Z) : Z := match k with CALL | CALLCODE => value | _ => 0 end.
+
+Lemma entry_ok_inv k st caller value c s s' :
+  entry k st caller value c s = Some (Ok s') ->
+  exists ro, evm_readonly evm_sites k = Some ro /\
+             contract_run methods expected_guards ro caller (eff_value k value) c s = Ok s'.
+Proof.
+  unfold entry, precompile_entry. destruct (evm_readonly evm_sites k) as [ro|] eqn:R; [|discriminate].
+  intro H. exists ro. split; [reflexivity|]. injection H as H1.
+  rewrite guards_expected in H1.
+  destruct (match k with CALL => st && (0 <? value) | _ => false end); [discriminate H1|].
+  destruct (match k with CALL | CALLCODE => bal s caller <? value | _ => false end); [discriminate H1|].
+  exact H1.
+Qed.
+
+(* C10, part 1 *)
+Theorem only_caller_pays : forall k st caller value c s s',
+  0 <= value -> wf_state s ->
+  entry k st caller value c s = Some (Ok s') -> tp_ok caller c s s'.
+Proof.
+  intros k st caller value c s s' Hv W H.
+  destruct (entry_ok_inv _ _ _ _ _ _ _ H) as (ro & _ & R).
+  destruct (contract_run_ok _ _ _ _ _ _ R) as (_ & _ & _ & M).
+  apply (method_run_tp caller (eff_value k value)); try assumption.
+  destruct k; cbn; lia.
+Qed.
+
+(* the allowance rule spelled out for transferFromShares *)
+Corollary transfer_from_bounded : forall k st caller value v from to sh s s',
+  0 <= value -> wf_state s -> from <> caller ->
+  entry k st caller value (CTransferFromShares v from to sh) s = Some (Ok s') ->
+  0 < sh <= alw s v from caller /\ alw s' v from caller = alw s v from caller - sh /\
+  dlg s from v - sh <= dlg s' from v.
+Proof.
+  intros k st caller value v from to sh s s' Hv W Hf H.
+  destruct (entry_ok_inv _ _ _ _ _ _ _ H) as (ro & _ & R).
+  destruct (contract_run_ok _ _ _ _ _ _ R) as (_ & _ & _ & M).
+  cbn [method_run] in M. ifs M. zb.
+  destruct W as (N & _ & _).
+  set (s0 := set_alw s (up3 (alw s) v from caller (alw s v from caller - sh))) in *.
+  destruct (ts_spec _ _ _ _ _ _ (N : rwd_nonneg s0) E M) as (_ & _ & A & _ & _ & _ & _ & DS & _).
+  split; [lia|]. split; [|exact DS].
+  rewrite A. unfold s0. cbn. unfold up3. rewrite !Z.eqb_refl. reflexivity.
+Qed.
+
+(* C10, part 2: state-changing methods are refused through STATICCALL, DELEGATECALL and CALLCODE *)
+Theorem readonly_guard : forall k st caller value c s m,
+  k <> CALL -> find_method methods c = Some m -> pm_readonly m = false ->
+  entry k st caller value c s = Some Err.
+Proof.
+  intros k st caller value c s m Hk F Hro. unfold entry, precompile_entry.
+  assert (R : evm_readonly evm_sites k = Some true) by (destruct k; [congruence| | |]; reflexivity).
+  rewrite R. f_equal.
+  destruct (match k with CALL => st && (0 <? value) | _ => false end); [reflexivity|].
+  destruct (match k with CALL | CALLCODE => bal s caller <? value | _ => false end); [reflexivity|].
+  rewrite guards_expected. unfold expected_guards. cbn [contract_run run_guard].
+  destruct c; try reflexivity; rewrite F; cbn [negb andb]; rewrite Hro; reflexivity.
+Qed.
+
+(* every method the table declares state-changing is covered by the guard *)
+Lemma write_methods_listed :
+  map pm_name (filter (fun m => negb (pm_readonly m)) methods) =
+  ["approveShares"; "transferShares"; "transferFromShares"; "withdraw"; "delegateV2"; "redelegateV2"; "undelegateV2";
+   "cancelSendToExternal"; "increaseBridgeFee"; "crossChain"; "bridgeCall"; "executeClaim"]%string.
+Proof. reflexivity. Qed.
+
+(* C10, part 3: a disabled address, or address/method, cannot execute at all *)
+Lemma existsb_in {A} (f : A -> bool) l x : In x l -> f x = true -> existsb f l = true.
+Proof. intros I F. apply existsb_exists. exists x. split; assumption. Qed.
+
+Lemma is_disabled_true entries addr mid e :
+  In e entries -> (lower e = addr \/ lower e = (addr ++ "/" ++ mid)%string) ->
+  is_disabled entries addr mid = true.
+Proof.
+  intros I L. unfold is_disabled. destruct entries as [|e0 es]; [destruct I|].
+  apply (existsb_in _ _ e I). cbn zeta. destruct L as [L|L]; rewrite L, String.eqb_refl; [reflexivity|apply orb_true_r].
+Qed.
+
+Theorem switch_blocks : forall k st caller value c s r e,
+  entry k st caller value c s = Some r ->
+  In e (switch s) ->
+  (lower e = contract_addr (call_contract c) \/
+   lower e = (contract_addr (call_contract c) ++ "/" ++ mid_of c)%string) ->
+  r = Err.
+Proof.
+  intros k st caller value c s r e H I L. destruct r as [s'|]; [exfalso|reflexivity].
+  destruct (entry_ok_inv _ _ _ _ _ _ _ H) as (ro & _ & R).
+  destruct (contract_run_ok _ _ _ _ _ _ R) as (_ & _ & D & _).
+  rewrite (is_disabled_true _ _ _ e I L) in D. discriminate.
+Qed.
+
+(* what the code does with a static context (finding C10-1): the flag the precompile receives does not depend on it,
+   so a value-free CALL made inside a STATICCALL behaves exactly like one made outside ... *)
+Theorem static_context_invisible : forall k caller c s,
+  entry k true caller 0 c s = entry k false caller 0 c s.
+Proof.
+  intros. unfold entry, precompile_entry. destruct (evm_readonly evm_sites k); [|reflexivity].
+  destruct k; cbn; rewrite ?andb_false_r; reflexivity.
+Qed.
+
+(* ... and therefore a state-changing method DOES execute there: the demand "fails in a static context" is refuted *)
+Theorem static_context_write_refuted :
+  exists s', entry CALL true 0 0 (CApproveShares 0 2 5) ex_state = Some (Ok s') /\
+             alw ex_state 0 0 2 = 0 /\ alw s' 0 0 2 = 5.
+Proof. eexists. split; [vm_compute; reflexivity|]. split; reflexivity. Qed.
+
+(* examples *)
+Theorem precompile_nonvacuous :
+  (* the victim (1) granted the caller (0) 30 shares: 10 move, the allowance drops to 20 *)
+  (exists s', entry CALL false 0 0 (CTransferFromShares 0 1 0 10) ex_state = Some (Ok s') /\
+              dlg s' 1 0 = 90 /\ dlg s' 0 0 = 10 /\ alw s' 0 1 0 = 20 /\ bal s' 1 = 1007 /\ rwd s' 1 0 = 0) /\
+  entry CALL false 0 0 (CTransferFromShares 0 1 0 31) ex_state = Some Err /\
+  (* the victim's pool entry cannot be cancelled by somebody else, it can by the victim *)
+  entry CALL false 0 0 (CCancelSendToExternal 1) ex_state = Some Err /\
+  (exists s', entry CALL false 1 0 (CCancelSendToExternal 1) ex_state = Some (Ok s') /\ pool s' 1 = None /\ bal s' 1 = 1055) /\
+  entry STATICCALL false 0 0 (CApproveShares 0 2 5) ex_state = Some Err /\
+  entry DELEGATECALL false 0 0 (CDelegateV2 0 5) ex_state = Some Err /\
+  entry CALLCODE false 0 0 (CCrossChain 5 1) ex_state = Some Err /\
+  (exists s', entry STATICCALL false 0 0 (CDelegation 0 1) ex_state = Some (Ok s')).
+Proof.
+  repeat split; try (vm_compute; reflexivity);
+    try (eexists; split; [vm_compute; reflexivity|repeat split; reflexivity]).
+  eexists. vm_compute. reflexivity.
+Qed.
+
+Definition ex_disabled : pst :=
+  mkp (bal ex_state) (dlg ex_state) (rwd ex_state) (wdr ex_state) (alw ex_state) (unb ex_state) (rrd ex_state)
+      (isval ex_state) (pool ex_state) (next_tx ex_state) (bcalls ex_state) (next_bc ex_state) true
+      ["0X0000000000000000000000000000000000001003/49DA433E"%string].
+
+Theorem switch_nonvacuous :
+  entry CALL false 0 0 (CApproveShares 0 2 5) ex_disabled = Some Err /\
+  (exists s', entry CALL false 0 0 (CDelegateV2 0 5) ex_disabled = Some (Ok s')).
+Proof. split; [vm_compute; reflexivity|eexists; vm_compute; reflexivity]. Qed.
